@@ -552,6 +552,7 @@ impl<'a> Sim<'a> {
                         let repo = self.nodes[i].storage.repos.get_mut(&rid).unwrap();
                         if let Ok(doc) = repo.doc.doc.clone().with_edits(|raw| raw.visibility = radicle::identity::Visibility::private([])) {
                             repo.doc.doc = doc;
+                            self.nodes[i].made_private.insert(rid);
                             self.res.hit("fault.node.repository_made_private_while_down");
                             let name = self.rname(&rid);
                             self.res.trace.log("fault-visibility", format!("t={} FAULT n{i}: {name} is made private while the node is down", self.now - T0));
